@@ -5,7 +5,7 @@ import json, os, re, subprocess, sys, glob
 REPO = os.environ.get('VERIF_REPO', '/repo')
 if REPO != '/repo':
     os.environ.setdefault('VERIF_EVIDENCE', '/tmp/verif-scratch-evidence')   # a scratch worktree can stand in for /repo (the checks honour VERIF_REPO too)
-V = '/verif'
+V = os.path.dirname(os.path.dirname(os.path.abspath(__file__)))   # runs from a snapshot of /verif too
 src, tag = sys.argv[1], sys.argv[2]
 props = [l.strip() for l in open(V + '/tools/claimed.txt') if l.strip()]
 res_path = V + '/benign/RESULTS.json'
